@@ -167,7 +167,13 @@ GEN = {
 GEN['gen-append'] = 'abi <abi/4.0>,\n\ninclude <tunables/global>\n\n@{lib} += /opt/vendor/lib\n@{bin} += /opt/vendor/bin\n@{exec_path} = @{lib}/gen-append @{bin}/gen-append\nprofile gen-append @{exec_path} {\n  include <abstractions/base>\n\n  @{exec_path} mr,\n\n  include if exists <local/gen-append>\n}\n'
 GEN['gen-uselib'] = 'abi <abi/4.0>,\n\ninclude <tunables/global>\n\n@{exec_path} = @{lib}/gen-uselib @{bin}/gen-uselib\nprofile gen-uselib @{exec_path} {\n  include <abstractions/base>\n\n  @{exec_path} mr,\n\n  #aa:exec gen-append\n\n  include if exists <local/gen-uselib>\n}\n'
 GEN['gen-execu'] = 'abi <abi/4.0>,\n\ninclude <tunables/global>\n\n@{exec_path} = @{bin}/gen-execu\nprofile gen-execu @{exec_path} {\n  include <abstractions/base>\n\n  @{exec_path} mr,\n\n  #aa:exec U gen-t2 gen-t1\n\n  include if exists <local/gen-execu>\n}\n'
-GEN_HOSTS = ['gen-append', 'gen-uselib', 'gen-execu', 'gen-stack1', 'gen-stack2', 'gen-stackx', 'gen-exec2', 'gen-dbus', 'gen-none']
+# three targets whose @{exec_path} values the library's file order ranks cyclically (a path without a known prefix between
+# two with one, C11's listed finding): a sort of these depends on its input order, so the generated rules expose any
+# order the exec directive takes from a map
+for _n, _p in (('gen-c1', '/usr/share/verif/x'), ('gen-c2', '/etc/verif/y'), ('gen-c3', '/snap/bin/verif')):
+    GEN[_n] = 'abi <abi/4.0>,\n\ninclude <tunables/global>\n\n@{exec_path} = %s\nprofile %s @{exec_path} {\n  include <abstractions/base>\n\n  @{exec_path} mr,\n\n  include if exists <local/%s>\n}\n' % (_p, _n, _n)
+GEN['gen-exec3'] = 'abi <abi/4.0>,\n\ninclude <tunables/global>\n\n@{exec_path} = @{bin}/gen-exec3\nprofile gen-exec3 @{exec_path} {\n  include <abstractions/base>\n\n  @{exec_path} mr,\n\n  #aa:exec gen-c1 gen-c2 gen-c3\n\n  include if exists <local/gen-exec3>\n}\n'
+GEN_HOSTS = ['gen-append', 'gen-uselib', 'gen-execu', 'gen-stack1', 'gen-stack2', 'gen-stackx', 'gen-exec2', 'gen-exec3', 'gen-dbus', 'gen-none']
 STEP_RE = re.compile(r'^STEP (\d+) (\S+) sha=(\w+) globals=(\S*) err=(.*)$', re.M)
 
 
